@@ -164,7 +164,14 @@ def check(case):
     frame, kinds = make_variant(case['rows'], case['variant'])
     before = copy.deepcopy(frame)
     res.evals = 2
-    snap_a = observe.snapshot(a, index=False)
+    def values_only(snap):
+        # per-hit assignments are compared by value; the storage dtype of chunk.data is not part of the statement
+        snap['data'] = {k: v for k, v in snap['data'].items() if not k.startswith('__dtype__')}
+        for col in ('dt', 'height'):
+            snap['data'][col] = [float(v).hex() if isinstance(v, int) and not isinstance(v, bool) else v
+                                 for v in snap['data'][col]]
+        return snap
+    snap_a = values_only(observe.snapshot(a, index=False))
     try:
         b = observe.run_case(case, frame=frame)
     except Exception as exc:
@@ -173,7 +180,7 @@ def check(case):
                  f'variant={kinds} {exc!r}'[:600])
         b = None
     if b is not None:
-        dd = observe.diff_snap(snap_a, observe.snapshot(b, index=False))
+        dd = observe.diff_snap(snap_a, values_only(observe.snapshot(b, index=False)))
         if dd:
             idx = ','.join(k for k in kinds if k.startswith('index')) or 'no-index-change'
             oth = ','.join(sorted(set(k.split(':')[0] for k in kinds if not k.startswith('index'))))
